@@ -35,4 +35,14 @@ PurgeLast == {W - 1}            \* the least that is correct: the revert that re
 PurgeFirst == {0}               \* "the revert steps back across a boundary", read from the wrong side
 PurgeNever == {}
 PurgeAllButLast == 0..(W - 2)
+
+\* ---- alternative mechanisms (RevertWinMBT.tla runs them next to the configured one; a behaviour
+\* "distinguishes" an alternative when some result or the observable disk differs at some step)
+AltMechs ==
+  {[n |-> "purge-first-of-window-only", m |-> [Mech EXCEPT !.purge = PurgeFirst]],
+   [n |-> "purge-never", m |-> [Mech EXCEPT !.purge = PurgeNever]],
+   [n |-> "purge-all-but-last-of-window", m |-> [Mech EXCEPT !.purge = PurgeAllButLast]],
+   [n |-> "reopened-window-left-on-disk", m |-> [Mech EXCEPT !.drop = FALSE]],
+   [n |-> "snapshot-not-consumed", m |-> [Mech EXCEPT !.consume = FALSE]],
+   [n |-> "reverted-column-not-cleared", m |-> [Mech EXCEPT !.clear = FALSE]]}
 =============================================================================
